@@ -27,7 +27,15 @@ pub fn gen_case(rng: &mut Rng, thorough: bool) -> J {
     let cfg = if thorough { GenCfg::thorough() } else { GenCfg::quick() };
     let d0 = if rng.chance(1, 4) { cfg.max_depth - 1 } else { 0 };
     let spec = spec::Spec(gen_spec(rng, &cfg, d0));
-    match rng.below(10) {
+    match rng.below(11) {
+        10 => {
+            // object encoding of resizable maps with ALIASED key spellings ("01", "+1", "001" all parse to 1): the
+            // entries collapse, so the number of JSON members is not the size of the map that is read
+            let v = value::Value(gen_value(rng, &spec.0, &cfg));
+            let mut j = v.to_json();
+            alias_keys(rng, &spec.0, &mut j);
+            run_case(&spec, &j, "alias-keys", None, None)
+        }
         0..=4 => {
             // a conforming value: to_json, then read it back
             let v = value::Value(gen_value(rng, &spec.0, &cfg));
@@ -55,6 +63,36 @@ pub fn gen_case(rng: &mut Rng, thorough: bool) -> J {
             run_case(&spec, &j, "json-defect", None, None)
         }
         _ => { let j = gen_json(rng, 0); run_case(&spec, &j, "arbitrary", None, None) }
+    }
+}
+
+/// at resizable maps: add an alias of an existing key, respell a key, or replace a key by an alias of another one
+fn alias_keys(rng: &mut Rng, s: &spec::Node, j: &mut J) {
+    match (s, &mut *j) {
+        (spec::Node::AnonMap { value_type, .. }, J::Object(m)) => {
+            let ks: Vec<String> = m.keys().cloned().collect();
+            for k in &ks { if let Some(c) = m.get_mut(k) { alias_keys(rng, value_type, c); } }
+            if ks.is_empty() { return; }
+            let spell = |rng: &mut Rng, k: &str| -> String { match rng.below(3) { 0 => format!("0{k}"), 1 => format!("+{k}"), _ => format!("00{k}") } };
+            let k = ks[rng.below(ks.len() as u64) as usize].clone();
+            match rng.below(3) {
+                0 => { let v = m[&k].clone(); let a = spell(rng, &k); m.insert(a, v); }                       // one more member, same map
+                1 => { let v = m.remove(&k).unwrap(); let a = spell(rng, &k); m.insert(a, v); }               // respelled
+                _ => {                                                                                          // same member count, one entry fewer
+                    if ks.len() >= 2 {
+                        let other = ks.iter().find(|x| **x != k).unwrap().clone();
+                        let v = m.remove(&k).unwrap();
+                        let a = spell(rng, &other);
+                        m.insert(a, v);
+                    }
+                }
+            }
+        }
+        (spec::Node::Sub { map }, J::Object(m)) => { for (k, cs) in map { if let Some(c) = m.get_mut(k) { alias_keys(rng, cs, c); } } }
+        (spec::Node::Array { value_type, .. }, J::Array(a)) => { for c in a.iter_mut() { alias_keys(rng, value_type, c); } }
+        (spec::Node::Variant { map, .. }, J::Object(m)) => { for (k, c) in m.iter_mut() { if let Some(cs) = map.get(k) { alias_keys(rng, cs, c); } } }
+        (spec::Node::Optional { value_type, .. }, other) => { if !other.is_null() { alias_keys(rng, value_type, other); } }
+        _ => {}
     }
 }
 
